@@ -182,7 +182,7 @@ func baseCase(r *lib.Rng, id int64, tier string, kind string) (Case, streamSpec)
 	if tier == "thorough" {
 		maxWords = 1500
 	}
-	nf := r.Range(8, 30)
+	nf := r.Range(8, 26)
 	if nf*W > maxWords {
 		nf = maxWords / W
 	}
@@ -242,8 +242,22 @@ func genCase(r *lib.Rng, id int64, tier string) Case {
 
 // one gap per script; the classes are balanced by rejection on the input tags
 func genGap(r *lib.Rng, id int64, tier string) Case {
-	want := r.Pick([]int{0, 0, 0, 1, 1, 2, 3}) // 0 met at read start, 1 not word aligned, 2 word aligned inside a read, 3 multiple of the frame size
-	var best Case
+	// 0 met at read start, 1 not word aligned, 2 word aligned inside a read, 3 multiple of the frame size.
+	// Classes 1 and 2 are the recorded findings (every such case fails and is shrunk by bin/check): a few per run.
+	want := 0
+	k := r.Intn(1000)
+	rare := 0 // quick tier: the findings are exercised by their corpus witnesses only
+	if tier == "thorough" {
+		rare = 5
+	}
+	switch {
+	case k < rare:
+		want = 1
+	case k < 2*rare:
+		want = 2
+	case k < 2*rare+120:
+		want = 3
+	}
 	for try := 0; try < 60; try++ {
 		c, sp := baseCase(r, id, tier, "gap")
 		fs := 4 * sp.ncols * sp.nrows
@@ -310,7 +324,6 @@ func genGap(r *lib.Rng, id int64, tier string) Case {
 		}
 		data, _ := c.chunkData()
 		tags, _ := inputTags(c, data)
-		best = c
 		ok := false
 		switch want {
 		case 0:
@@ -326,14 +339,11 @@ func genGap(r *lib.Rng, id int64, tier string) Case {
 			return c
 		}
 	}
-	if best.Stream == "" {
-		c, sp := baseCase(r, id, tier, "chunking")
-		s := makeStream(r, sp)
-		c.Stream = hex.EncodeToString(s)
-		c.Ops = chunkOps(r, len(s), 4*sp.ncols*sp.nrows, 0)
-		return c
-	}
-	return best
+	c, sp := baseCase(r, id, tier, "chunking")
+	s := makeStream(r, sp)
+	c.Stream = hex.EncodeToString(s)
+	c.Ops = chunkOps(r, len(s), 4*sp.ncols*sp.nrows, 0)
+	return c
 }
 
 func genMalformed(r *lib.Rng, id int64, tier string) Case {
